@@ -40,14 +40,15 @@ RULE = ('a seeded history masters a valid image of <= ~400 sectors; 24 (quick) /
 BUDGET = {'quick': 45, 'thorough': 900}
 PROBES = ['variants_opened', 'open_succeeded', 'open_refused_documented', 'fault:truncate', 'fault:torn-prefix', 'fault:lost-writes', 'fault:zero-sector',
           'fault:copy-sector', 'fault:stale-sector', 'fault:field', 'fault:field-pair', 'fault:seek-end', 'fault:random-bytes', 'fault:alias-dirs', 'fault:dup-chain', 'fault:struct-extremes', 'udf_tag_refixed',
-          'memory_measured', 'images_with_udf', 'images_with_rr', 'images_with_eltorito', 'images_with_hybrid']
-ASSUMPTIONS = ['"promptly" = within 50x the interpreter events of opening the undamaged parent (+2M), a deterministic measure independent of machine load',
-               'the 30 s wall watchdog only guards against a stall outside Python code']
+          'memory_measured', 'variants_skipped_run_step_budget', 'images_with_udf', 'images_with_rr', 'images_with_eltorito', 'images_with_hybrid']
+ASSUMPTIONS = ['"promptly" = within min(50 x parent + 2M, max(12M, 4 x parent)) interpreter events, parent = opening the undamaged image; a deterministic measure independent of machine load',
+               'one run spends at most 4M events on damaged variants (the rest are skipped and counted in variants_skipped_run_step_budget)',
+               'the 60 s soft / 120 s hard wall limits of the runner only guard against a stall outside Python code and end in exit 2, never in a verdict']
 SHRINK_LIST_KEYS = ['faults', 'ops']
 CHUNK = 4
 
 PROFILE = H.Profile('c15', nops=(2, 12), final_restart=False,
-                    weights={'add_boot_file': 3, 'add_eltorito': 5, 'add_isohybrid': 3, 'hybrid_setup': 2.5, 'chain_dirs': 2.5, 'dup_pvd': 0.5, 'restart': 1, 'add_symlink': 8, 'mass_dirs': 0.4, 'mass_files': 0.4},
+                    weights={'add_boot_file': 3, 'add_eltorito': 5, 'add_isohybrid': 3, 'hybrid_setup': 2.5, 'chain_dirs': 2.5, 'shared_hidden_boot': 2.5, 'dup_pvd': 0.5, 'restart': 1, 'add_symlink': 8, 'mass_dirs': 0.4, 'mass_files': 0.4},
                     sizes=(0, 1, 100, 2047, 2048, 2049, 6000, 20480))
 
 VALUES = ('zero', 'one', 'max', 'size-1', 'size', 'size+1', 'own', 'other', 'random', 'half', 'plus1', 'minus1', 'same-kind', 'same-kind')
